@@ -256,6 +256,9 @@ def scenario_random(w: World, nsteps: int) -> None:
     claimed: list = []
     for step in range(nsteps):
         w.clock.advance(1000)
+        if rng.random() < 0.06:
+            # a long pause: claims grow old (older than `max_pending_seconds`) - they still hold their key until somebody RECOVERS them
+            w.clock.advance(3_600_000_000)
         r = rng.random()
         if r < 0.30:
             w.submit_single({} if w.noargs else draw_args(rng))
